@@ -539,6 +539,8 @@ def renorm(v):
         return mk_sub(v[1], v[2])
     if t == "vcall":
         return mk_vcall(v[1], v[2], v[3])
+    if t == "attr" and v[1][0] in ("enum", "sym"):
+        return _attr(v[1], v[2])
     return v
 
 
@@ -595,6 +597,8 @@ def show(v, top=True) -> str:
         return f"#{v[1]}" + ("" if v[2] == C(0) else f"+{show(v[2])}")
     if t == "first":
         return f"first${v[1]}"
+    if t == "enum":
+        return f"{v[1]}.{v[2]}"
     if t == "cidx":
         return f"#{v[1]}|{show(v[3])}" + ("" if v[2] == C(0) else f"+{show(v[2])}")
     if t == "acc":
@@ -978,7 +982,7 @@ class AV:
         known = it
         if known[0] == "c" and isinstance(known[1], tuple):
             known = ("list", tuple(C(x) for x in known[1]))
-        if known[0] == "list" and not any(i[0] in ("spread", "when") for i in known[1]) and len(known[1]) <= 16 and any(isinstance(n, (ast.Break, ast.Return)) for s_ in st.body for n in ast.walk(s_)):
+        if known[0] == "list" and not any(i[0] in ("spread", "when") for i in known[1]) and len(known[1]) <= 16:
             # a loop over a known sequence that can leave early is executed element by element
             broke = False
             prets = []
@@ -1438,6 +1442,24 @@ class AV:
         d = fr.binder + 1
         it = self._ev(g.iter, fr)
         it, idx = self._iter(it, d)
+        known = _unwrap_seq(it)
+        if known[0] == "c" and isinstance(known[1], tuple):
+            known = ("list", tuple(C(x) for x in known[1]))
+        if known[0] == "list" and not any(i[0] in ("spread", "when") for i in known[1]) and len(known[1]) <= 16:
+            # a comprehension over a known sequence is evaluated element by element (constant propagation)
+            out = []
+            for k, elem in enumerate(known[1]):
+                inner = Frame(fr.func, fr.rel, dict(fr.env), fr.depth, fr.binder)
+                self._bind(g.target, elem if idx is None else ("list", (C((idx[2][1] if idx[2][0] == "c" else 0) + k), elem)), inner)
+                cs = [self._truth(self._ev(c, inner)) for c in g.ifs]
+                if any(c == C(False) for c in cs):
+                    continue
+                x = self._ev(elt, inner)
+                for c in cs:
+                    if c != C(True):
+                        x = ("when", c, x)
+                out.append(x)
+            return mk_list(out)
         inner = Frame(fr.func, fr.rel, dict(fr.env), fr.depth, d)
         self._bind_loop_target(g.target, it, idx, d, inner)
         conds = tuple(self._truth(self._ev(c, inner)) for c in g.ifs)
@@ -2143,6 +2165,11 @@ def canon_sym(text: str) -> str:
 
 
 def _attr(base, name):
+    if base[0] == "enum":  # ('enum', class, member, value): a member of an Enum class, supplied by a rule
+        if name == "value":
+            return C(base[3])
+        if name == "name":
+            return C(base[2])
     if base[0] == "sym":
         return ("sym", canon_sym(base[1] + "." + name))
     return ("attr", base, name)
